@@ -124,6 +124,9 @@ def build_function(rng, name, nsamples=None, named=None, stationary_at=None):
     if stationary_at is None:
         stationary_at = rng.choice([None, None, "first", "middle", "last", "none"])
     forced = {"first": 0, "middle": n // 2, "last": n - 1}.get(stationary_at, None)
+    # how the forced stationary sample is recorded: the leaf's own stationary_point(), add_point with a zero
+    # gradient, or stationary_point() of a single-leaf composite
+    stat_route = rng.choice(["leaf", "leaf", "add_point", "composite"])
     seen_points = []
     last_triplet = None
     for step in range(n):
@@ -134,7 +137,17 @@ def build_function(rng, name, nsamples=None, named=None, stationary_at=None):
             want_stat = False
         else:
             want_stat = r < 0.15
-        if want_stat:
+        if want_stat and forced is not None and stat_route == "add_point" and not quad:
+            x = rand_point(rng, leaves)
+            g0 = rng.choice(leaves)
+            z = rng.choice([Point(is_leaf=False, decomposition_dict=dict()), g0 - g0, 0 * g0])
+            func.add_point((x, z, rand_expr(rng, xleaves, leaves)))
+            kinds.append("stationary:add_point_zero_gradient")
+        elif want_stat and forced is not None and stat_route == "composite" and not quad:
+            c = rng.choice([1, 2, -1, 0.5])
+            x = (c * func).stationary_point()
+            kinds.append("stationary:composite(%s*f)" % c)
+        elif want_stat:
             x = func.stationary_point()     # quadratic class: returns the unique one created by the constructor
             kinds.append("stationary")
         elif r < 0.25:
@@ -169,6 +182,23 @@ def build_function(rng, name, nsamples=None, named=None, stationary_at=None):
             func.add_point(last_triplet)
             x = x0
             kinds.append("same_x_g")
+        elif r < 0.78:
+            # a minimiser recorded through add_point: zero-gradient Point (empty dictionary, a difference g - g,
+            # or 0 * g whose dictionary only prunes to empty)
+            x = rand_point(rng, leaves)
+            g0 = rng.choice(leaves)
+            z = rng.choice([lambda: Point(is_leaf=False, decomposition_dict=dict()), lambda: g0 - g0,
+                            lambda: 0 * g0])()
+            last_triplet = (x, z, rand_expr(rng, xleaves, leaves))
+            func.add_point(last_triplet)
+            seen_points.append(x)
+            kinds.append("add_point_zero_gradient")
+        elif r < 0.84:
+            # a minimiser declared on a single-leaf composite: the leaf receives (xs, 0 / c, F(xs) / c) by add_point
+            c = rng.choice(["1*", "2*", "-", "/2"])
+            F = {"1*": lambda: 1 * func, "2*": lambda: 2 * func, "-": lambda: -func, "/2": lambda: func / 2}[c]()
+            x = F.stationary_point()
+            kinds.append("composite_stationary(%sf)" % c)
         else:
             x = rand_point(rng, leaves)
             g = rand_point(rng, leaves) if rng.random() < 0.8 else Point()
@@ -290,6 +320,11 @@ def coq_state(fid, par, inf, pts, stat, tpts, v, oid, partition=None, Lk=None, n
         coq_nat(Point.counter if next_point is None else next_point),
         coq_nat(Expression.counter if next_expr is None else next_expr),
         coq_nat(len(oid)), coq_nat(nb), lkf)
+
+
+def T_prune_empty(point):
+    """the point's decomposition dictionary prunes to the empty dictionary (the point denotes 0 syntactically)"""
+    return all(v == 0 for v in point.decomposition_dict.values())
 
 
 def function_id(func):
